@@ -4,14 +4,15 @@ records what the coordinator ran and saw."""
 import json, shutil, sys
 from pathlib import Path
 pid, k, status, result = sys.argv[1:5]
-src = Path(f'/tmp/seed/{pid}/out/m{k}')
-dst = Path(f'/verif/seeded/{pid}-m{k}')
+rnd = sys.argv[5] if len(sys.argv) > 5 else ''
+src = Path(f'/tmp/seed{rnd}/{pid}/out/m{k}')
+dst = Path(f'/verif/seeded/{pid}-' + (f'r{rnd}' if rnd else '') + f'm{k}')
 dst.mkdir(parents=True, exist_ok=True)
 for f in ('patch.diff', 'demo.py', 'meta.json'):
     shutil.copy(src / f, dst / f)
 m = json.loads((dst / 'meta.json').read_text())
 m['verified_by_coordinator'] = {
-    'ran': f'tools/run_seed.sh {pid} seeded/{pid}-m{k}  (scratch worktree of /repo HEAD + patch; VERIF_REPO=<worktree> ./check {pid} --tier quick); tools/verify_seed.sh for suite/demo',
+    'ran': f'tools/run_seed.sh {pid} seeded/{dst.name}  (scratch worktree of /repo HEAD + patch; VERIF_REPO=<worktree> ./check {pid} --tier quick); tools/verify_seed.sh for suite/demo',
     'status': status, 'result': result}
 (dst / 'meta.json').write_text(json.dumps(m, indent=1))
 print('stored', dst)
